@@ -68,4 +68,10 @@ edit trunc-form      $D/msg.go $'\tm.Authorities = m.Authorities[:0]' $'\tauth :
 edit promote-vars    $R/cache.go $'\t\t\t\tc.memory.Store(key, storedTime, expireTime, v, true)' $'\t\t\t\tst, et := storedTime, expireTime\n\t\t\t\tc.memory.Store(key, st, et, v, true)'
 edit label-ge-64     $D/name.go $'\tif labelLen > 63 {' $'\tif labelLen >= 64 {'
 edit closer-rename   $T/doh_transport.go 'closer' 'sockets'
+edit lower-inline    $D/name.go $'\t\tasciiToLower(scanner.Label())' $'\t\tlabel := scanner.Label()\n\t\tfor i := range label {\n\t\t\tif c := label[i]; c >= \'A\' && c <= \'Z\' {\n\t\t\t\tlabel[i] = c + 32\n\t\t\t}\n\t\t}'
+edit lower-or        $D/utils.go $'\t\t\tc += \'a\' - \'A\'\n\t\t\ts[i] = c' $'\t\t\ts[i] = c | 0x20'
+edit limiter-andand  $R/limiter.go $'\tif l.cl != nil {\n\t\tif !l.cl.AllowN(addr, now, n) {\n\t\t\treturn errClientResLimit\n\t\t}\n\t}' $'\tif l.cl != nil && !l.cl.AllowN(addr, now, n) {\n\t\treturn errClientResLimit\n\t}'
+edit removeport-form internal/upstream/utils.go $'\thost, _, err := net.SplitHostPort(s)\n\tif err != nil {\n\t\treturn s\n\t}\n\treturn host' $'\tif host, _, err := net.SplitHostPort(s); err == nil {\n\t\treturn host\n\t}\n\treturn s'
+edit pop-continue    $D/msg.go $'\t\tif r.Hdr().Type == TypeOPT {\n\t\t\tm.Additionals[i] = m.Additionals[end]\n\t\t\tm.Additionals[end] = nil\n\t\t\tm.Additionals = m.Additionals[:end]\n\t\t\treturn r\n\t\t}' $'\t\tif r.Hdr().Type != TypeOPT {\n\t\t\tcontinue\n\t\t}\n\t\tm.Additionals[i] = m.Additionals[end]\n\t\tm.Additionals[end] = nil\n\t\tm.Additionals = m.Additionals[:end]\n\t\treturn r'
+edit name-guard-le   $D/name.go 'if len(name)+1+c+1 > 255 {' 'if len(name)+c >= 254 {'
 rm -rf $out
